@@ -11,6 +11,7 @@ package c13
 import (
 	"fmt"
 	"os"
+	"sort"
 	"strings"
 
 	"verif/internal/engine"
@@ -126,6 +127,63 @@ type check struct {
 	fams  []*family
 	total int64
 	batch int64
+	order []unitRef // unit -> batch of one family
+}
+
+// unitRef is one unit: the batch number `local` of family `fam`.
+type unitRef struct {
+	fam   int32
+	local int32
+}
+
+func gcd(a, b int64) int64 {
+	for b != 0 {
+		a, b = b, a%b
+	}
+	return a
+}
+
+// schedule orders the units so that a run cut by its deadline has explored the same fraction of
+// every family, and inside a family an evenly spread subset of its batches: the families advance
+// in proportion to their sizes, and the j-th unit of a family is its batch j*stride mod n, stride
+// being the integer next to n/golden ratio that is coprime with n (a permutation of the batches
+// whose every prefix is spread over the whole family: structures of every shape and every
+// number of deviations are reached within the first few per cent of the run).
+func (c *check) schedule() {
+	type item struct {
+		key float64
+		ref unitRef
+	}
+	var items []item
+	for fi, f := range c.fams {
+		n := (f.n + c.batch - 1) / c.batch
+		stride := int64(float64(n) * 0.6180339887)
+		if stride < 1 {
+			stride = 1
+		}
+		for gcd(stride, n) != 1 {
+			stride++
+		}
+		for j := int64(0); j < n; j++ {
+			items = append(items, item{(float64(j) + 0.5) / float64(n), unitRef{int32(fi), int32(j * stride % n)}})
+		}
+	}
+	sort.SliceStable(items, func(a, b int) bool { return items[a].key < items[b].key })
+	c.order = make([]unitRef, len(items))
+	for i, it := range items {
+		c.order[i] = it.ref
+	}
+}
+
+// span returns the family and the family-local case range of unit u.
+func (c *check) span(u int64) (*family, int64, int64) {
+	r := c.order[u]
+	f := c.fams[r.fam]
+	lo, hi := int64(r.local)*c.batch, (int64(r.local)+1)*c.batch
+	if hi > f.n {
+		hi = f.n
+	}
+	return f, lo, hi
 }
 
 func init() { engine.Register(&check{}) }
@@ -144,10 +202,26 @@ func shapes(maxR, maxC int) [][2]int {
 	return out
 }
 
-func structSet(sh [][2]int, k int) []structure {
+func structSet(sh [][2]int, k int) []structure { return structMenu(sh, k, allSyms) }
+
+func structMenu(sh [][2]int, k int, menu []uint8) []structure {
 	var out []structure
 	for _, s := range sh {
-		out = append(out, structures(s[0], s[1], k, allSyms)...)
+		out = append(out, structures(s[0], s[1], k, menu)...)
+	}
+	return out
+}
+
+// withRowSpan keeps the structures in which a cell spans rows.
+func withRowSpan(in []structure) []structure {
+	var out []structure
+	for _, s := range in {
+		for _, v := range s.span {
+			if sym := spanMenu[v]; !sym.absent && sym.rs != 1 {
+				out = append(out, s)
+				break
+			}
+		}
 	}
 	return out
 }
@@ -169,6 +243,23 @@ func (c *check) Init(tier string, seed int64) engine.Space {
 	core := []fullDim{{dWidth, []uint8{0, 1, 2, 3}}, {dLayout, []uint8{0, 1}}}
 	coreSp := append(append([]fullDim(nil), core...), fullDim{dSpacing, []uint8{0, 2}})
 	otherDims := []int{dSpacing, dBorder, dSection, dCaption, dCols, dContent, dCellW, dContainer}
+	// single deviations also include the vertical options and the split over pages
+	singleDims := append(append([]int(nil), otherDims...), dPageH, dRowH, dVAlign, dCellH)
+	// ---- tables split over pages (page height of one or two lines), pages of different geometry
+	allGeom := fullDim{dPageGeom, []uint8{0, 1, 2, 3}}
+	widths := fullDim{dWidth, []uint8{0, 1, 2, 3}}
+	layouts := fullDim{dLayout, []uint8{0, 1}}
+	spacings := fullDim{dSpacing, []uint8{0, 2}}
+	splitFull := []fullDim{{dPageH, []uint8{1}}, allGeom, widths, layouts, spacings}
+	split25Full := []fullDim{{dPageH, []uint8{2}}, {dPageGeom, []uint8{1, 3}}, widths, layouts, spacings}
+	// one more deviation on a split table: the options that change what a fragment is made of
+	// (repeated header/footer groups, collapsed borders, caption, columns, lines per cell, heights)
+	splitDevDims := []int{dBorder, dSection, dCaption, dCols, dContent, dCellW, dRowH, dCellH}
+	splitDevFull := []fullDim{{dPageH, []uint8{1, 2}}, {dPageGeom, []uint8{1}}, {dWidth, []uint8{0, 3}}}
+	spanLite := []uint8{1, 2, 4, 6} // colspan, rowspan, rowspan=0, absent
+	// ---- heights: rows with a specified height x tall cells x cells spanning rows
+	rowSpans := []uint8{2, 3, 4}
+	heightFull := []fullDim{{dRowH, []uint8{0, 1, 2, 3}}, {dContent, []uint8{0, 8, 9}}, spacings, {dVAlign, []uint8{0, 2}}}
 	// a few hand-picked structures on which pairs of option deviations are crossed in the quick tier
 	pairStructs := []structure{
 		{2, 2, []uint8{0, 0, 0, 0}},
@@ -188,7 +279,7 @@ func (c *check) Init(tier string, seed int64) engine.Space {
 		c.fams = []*family{
 			{name: "tables <=3x3, <=3 span symbols x width x layout x spacing{0,2px 4px}", structs: structSet(sh33, 3), full: coreSp},
 			{name: "4-row tables, <=2 span symbols x width x layout x spacing{0,2px 4px}", structs: structSet(sh4, 2), full: coreSp},
-			{name: "all shapes, <=1 span symbol x width x layout x 1 option deviation", structs: structSet(append(sh33, sh4...), 1), full: core, devs: levels(otherDims, 1, 1)},
+			{name: "all shapes, <=1 span symbol x width x layout x 1 option deviation", structs: structSet(append(sh33, sh4...), 1), full: core, devs: levels(singleDims, 1, 1)},
 			{name: "tables of <=4 cells, <=1 span symbol x width x layout x 2 option deviations", structs: structSet(small, 1), full: core, devs: levels(otherDims, 2, 2)},
 			{name: "two column-spanning cells (2x2, 2x3, 3x2) x width x layout x spacing x content x cell width (ties between width guesses)", structs: twoColspans([][2]int{{2, 2}, {2, 3}, {3, 2}}, false), full: tieT},
 			{name: "tables of <=6 cells, exactly 2 span symbols x width x layout x 1 deviation of content / cell width", structs: onlyLevel(structSet(mid, 2), 2), full: core, devs: levels([]int{dContent, dCellW}, 1, 1)},
@@ -197,9 +288,13 @@ func (c *check) Init(tier string, seed int64) engine.Space {
 		upto6 := [][2]int{{1, 1}, {1, 2}, {2, 1}, {1, 3}, {3, 1}, {2, 2}, {2, 3}, {3, 2}}
 		c.fams = []*family{
 			{name: "tables of <=6 cells with <=2 span symbols, 3x3 with <=1, x width x layout x spacing{0,2px 4px}", structs: append(structSet(upto6, 2), structSet([][2]int{{3, 3}}, 1)...), full: coreSp},
-			{name: "tables of <=6 cells, <=1 span symbol x width x layout x 1 option deviation", structs: structSet(upto6, 1), full: core, devs: levels(otherDims, 1, 1)},
+			{name: "tables of <=6 cells, <=1 span symbol x width x layout x 1 option deviation", structs: structSet(upto6, 1), full: core, devs: levels(singleDims, 1, 1)},
 			{name: "3 structures x width x layout x 2 option deviations", structs: pairStructs[:3], full: core, devs: levels(otherDims, 2, 2)},
 			{name: "two column-spanning cells in different rows (2x2, 3x2) x width x spacing{0,2px} x content x cell width (ties between width guesses)", structs: twoColspans([][2]int{{2, 2}, {3, 2}}, true), full: tieDims},
+			{name: "split over pages of one line: tables of <=6 cells in <=3 rows, <=1 span symbol x page geometry x width x layout x spacing{0,2px 4px}", structs: structSet([][2]int{{1, 2}, {2, 1}, {2, 2}, {3, 1}, {3, 2}}, 1), full: splitFull},
+			{name: "split over pages of two lines: 3-row tables, <=1 span symbol x page geometry{first margin, first wider} x width x layout x spacing{0,2px 4px}", structs: structSet([][2]int{{3, 1}, {3, 2}}, 1), full: split25Full},
+			{name: "split over pages of one or two lines, first page with a margin: 2x2, 3x1, 3x2 with <=1 span symbol of {colspan, rowspan, rowspan=0, absent} x width{auto,100%} x 1 option deviation", structs: structMenu([][2]int{{2, 2}, {3, 1}, {3, 2}}, 1, spanLite), full: splitDevFull, devs: levels(splitDevDims, 1, 1)},
+			{name: "heights: tables with a cell spanning rows (2x1, 2x2, 3x1 with <=2 row-spanning symbols, 3x2, 4x1, 4x2 with 1) x row height x tall content x spacing{0,2px 4px} x vertical-align{baseline,middle}", structs: withRowSpan(append(structMenu([][2]int{{2, 1}, {2, 2}, {3, 1}}, 2, rowSpans), structMenu([][2]int{{3, 2}, {4, 1}, {4, 2}}, 1, rowSpans)...)), full: heightFull},
 		}
 	}
 	if only := os.Getenv("C13_ONLY"); only != "" { // development aid: explore some families only
@@ -218,21 +313,24 @@ func (c *check) Init(tier string, seed int64) engine.Space {
 		c.total += f.n
 		fb = append(fb, map[string]any{"family": f.name, "structures": len(f.structs), "crossed": f.nFull, "deviation_sets": len(f.devs), "cases": f.n})
 	}
-	units := (c.total + c.batch - 1) / c.batch
+	c.schedule()
+	units := int64(len(c.order))
 	dims := map[string]any{}
 	for i, n := range dimNames {
 		dims[n] = dimValues[i]
 	}
 	return engine.Space{
 		Units: units, Chunk: 4, Level: "model_checking", CaseCPUs: 10,
-		Rule: "deviation-bounded product enumeration: every table of the listed families (structure = rows x cells with at most k non-default span symbols; options = full product of the crossed dimensions times every set of option deviations of the stated size), index-addressable, fewest deviations first inside a family; each table is laid out by the real pipeline and every clause of the statement evaluated on it. A case is non-trivial when at least two cells were laid out (so that the relational clauses compare something)",
+		Rule: "deviation-bounded product enumeration: every table of the listed families (structure = rows x cells with at most k non-default span symbols; options = full product of the crossed dimensions times every set of option deviations of the stated size), index-addressable; the units (batches of one family) are scheduled so that all families advance together and every prefix of a family is spread evenly over it; each table is laid out by the real pipeline and every clause of the statement evaluated on it, on every page that holds a fragment of the table when it is split over pages. A case is non-trivial when at least two cells were laid out on one page (so that the relational clauses compare something)",
 		Bounds: map[string]any{
 			"span_symbols(colspan,rowspan)": []string{"1,1", "2,1", "1,2", "2,2", "1,0", "5,1", "absent"},
 			"option_dimensions":             dims, "families": fb, "cases_total": c.total, "cases_per_unit": c.batch,
-			"page": "container width x 1000px, font 10px/1 Ahem",
+			"page": "container width x page height (1000px: one page; 15px / 25px: the table is split), font 10px/1 Ahem",
 		},
 		Assumptions: []string{
-			"LTR tables only; no nested tables; no page break inside a table (page is 1000px high)",
+			"LTR tables only; no nested tables",
+			"tables split over pages (page height 15px / 25px): every fragment is checked as a laid-out table, its rows identified by the id of their <tr>; a header or footer group, a row or the caption that the pagination drops is not a matter of this property; the bottom edge of a cell whose spanned rows continue on the next page is not checked (the statement does not say how such a cell is fragmented; counted as spans-cut-by-a-page-break), it must still not overlap the cells of disjoint slots",
+			"page geometry: the first page is a right page; the containing block of the table on page p is computed from the @page rules (only its width matters: width:100%)",
 			"cell text is Ahem 10px, so min-content widths are exact multiples of 10px",
 			"slot assignment reference is HTML's 'forming a table' algorithm (only the first slot of a cell is tested for occupancy); tables in which it puts two cells on one slot are explored and tagged slot-collision, the overlap clause only looks at cells on disjoint slots (the collision itself is property C09)",
 			"columns/rows in which no cell originates may or may not receive border-spacing (CSS 2.1 vs CSS Tables 3 track merging): both are accepted by the adjacency clauses; the fill clause is stated on the outermost column edges (CSS 2.1 §17.6.1)",
@@ -289,13 +387,9 @@ func (c *check) caseAt(i int64) (*family, *doc) {
 }
 
 func (c *check) Run(u int64, ctx *engine.Ctx) {
-	lo, hi := u*c.batch, (u+1)*c.batch
-	if hi > c.total {
-		hi = c.total
-	}
+	f, lo, hi := c.span(u)
 	for i := lo; i < hi; i++ {
-		_, d := c.caseAt(i)
-		c.runCase(d, ctx)
+		c.runCase(f.at(i), ctx)
 	}
 }
 
@@ -320,23 +414,51 @@ func (c *check) runCase(d *doc, ctx *engine.Ctx) {
 	}
 	noTable := false
 	ok := ctx.GuardFail(desc, feats, func() {
-		pages, err := render.Layout(render.Options{HTML: html, Engine: "pango", PageBound: 8})
+		bound := 8
+		if d.paginated() {
+			bound = 40 // one line per page: at most rows x lines pages, plus pages the caption takes
+		}
+		pages, err := render.Layout(render.Options{HTML: html, Engine: "pango", PageBound: bound})
 		if err != nil || len(pages) == 0 {
 			noTable = true
 			return
 		}
-		t := findTable(pages[0])
-		if t == nil {
-			noTable = true
+		if !d.paginated() {
+			t := findTable(pages[0])
+			if t == nil {
+				noTable = true
+				return
+			}
+			out = verify(d, g, t, 0, rp)
 			return
 		}
-		out = verify(d, g, t, rp)
+		// the table is split: every fragment is a laid-out table
+		var key strings.Builder
+		frags := 0
+		for p, pg := range pages {
+			t := findTable(pg)
+			if t == nil {
+				continue
+			}
+			frags++
+			o := verify(d, g, t, p, rp)
+			fmt.Fprintf(&key, "p%d %s | ", p, o.key)
+			out.nontrivial = out.nontrivial || o.nontrivial
+		}
+		out.key = key.String()
+		rp.count("pages-of-split-tables", int64(len(pages)))
+		if frags >= 2 {
+			rp.count("tables-split-over-pages", 1)
+		}
+		if frags == 0 {
+			noTable = true
+		}
 	})
 	switch {
 	case !ok:
 		ctx.Case(true, "panic")
 	case noTable:
-		ctx.Fail(engine.Failure{Clause: "structure", Features: feats, Case: desc, Detail: "no table box on the first page"})
+		ctx.Fail(engine.Failure{Clause: "structure", Features: feats, Case: desc, Detail: "no table box on the first page (on any page, when the table is split)"})
 		ctx.Case(false, "no-table")
 	default:
 		ctx.Case(out.nontrivial, out.key)
@@ -358,15 +480,11 @@ func (c *check) FeaturesOf(desc string) []string {
 }
 
 func (c *check) Describe(u int64) any {
-	lo, hi := u*c.batch, (u+1)*c.batch
-	if hi > c.total {
-		hi = c.total
-	}
-	if lo >= hi {
+	if u < 0 || u >= int64(len(c.order)) {
 		return nil
 	}
-	f, d0 := c.caseAt(lo)
-	_, d1 := c.caseAt(hi - 1)
+	f, lo, hi := c.span(u)
+	d0, d1 := f.at(lo), f.at(hi-1)
 	h := d0.html()
 	return map[string]any{"family": f.name, "cases": hi - lo, "first_code": d0.code(), "first": h[strings.Index(h, "</style>")+8:], "last_code": d1.code(),
 		"code_format": fmt.Sprintf("RxC:span symbol per cell:%s", strings.Join(dimNames[:], ","))}
